@@ -219,7 +219,7 @@ func c08RangeSensitive(c *Ctx, f *ssa.Function, rg *ssa.Range) []string {
 	// loop-carried phis that take element-derived values
 	for _, in := range header.Instrs {
 		if p, ok := in.(*ssa.Phi); ok {
-			for _, e := range p.Edges {
+			for _, e := range ssax.FeasibleEdges(p) {
 				if fromElem(e) {
 					if call, isCall := ssax.Resolve(e).(*ssa.Call); isCall {
 						if bi, isB := call.Common().Value.(*ssa.Builtin); isB && bi.Name() == "append" {
